@@ -337,7 +337,7 @@ pub fn main(args: &Args) -> Report {
         return rep;
     }
     let thorough = args.thorough();
-    let n_cases = if thorough { 1000 } else { 240 };
+    let n_cases = if thorough { 6000 } else { 240 };
     let deadline = Instant::now() + Duration::from_secs(args.budget_s(150, 2400));
     let seed = args.seed;
     let (out, done) = par_cases(n_cases, threads(), Some(deadline), |k| run_case(seed, k, thorough, None));
